@@ -313,7 +313,7 @@ package replicationcontroller
   ensures (and (not (= result vnil)) (= (|F!types/replicationcontroller.filterSubscription!filterParent| result) {parent}))
 @*/
 /*@ func types/replicationcontroller.BuildController
-  props C20
+  props C20 C11
   theory replicationcontrollertyped
   ghost perr : V := vnil
   at call(NewController) assert [an-untyped-controller-on-the-same-context-log-and-client] (and (= $0 {ctx}) (= $1 {log}) (= $2 {client}))
